@@ -55,6 +55,8 @@ def render_binding(b, modname, k=0):
 
 
 def render_module(m):
+    if m.get("raw") is not None:
+        return m["raw"]
     lines = [render_binding(b, m["name"], k) for k, b in enumerate(m["body"])]
     if m["all"] is not None:
         items = ", ".join(repr(n) for n in m["all"])
@@ -492,7 +494,7 @@ def client_mod(i, body):
     return mod(f"zz_client_{i}", body)
 
 
-def tree_case_text(k, tree, clients, useds, impl_out, cpython, stdlib):
+def tree_case_text(k, tree, clients, useds, impl_out, cpython, stdlib):  # noqa: C901
     """Coq text for tree k: graph, resolve-vs-CPython cases, starred and reimported cases.
     returns (text, [labels of the Eval blocks in order with their case lists])"""
     cmods = [client_mod(i, b) for i, b in enumerate(clients)]
@@ -533,17 +535,17 @@ def tree_case_text(k, tree, clients, useds, impl_out, cpython, stdlib):
             out = impl_out[rule][i]
             src = client_source(body, used)
             if isinstance(out, tuple):
-                labels.append((rule, "crash", src, out)); cs.append("([], [], [Def 0])")
+                labels.append((rule, "crash", src, out, tree)); cs.append("([], [], [Def 0])")
                 continue
             try:
                 ob = parse_client(out)
                 enc = glist([coq_binding(b, ids) for b in ob])
             except Exception as e:  # noqa
-                labels.append((rule, "unparsable-output", src, out)); cs.append("([], [], [Def 0])")
+                labels.append((rule, "unparsable-output", src, out, tree)); cs.append("([], [], [Def 0])")
                 continue
             names = sorted({bound_name(b) for b in body if bound_name(b)} | set(used))
             cs.append(f"({glist([coq_binding(b, ids) for b in body])}, {glist([ids(n) for n in (used if rule == 'fix_starred_imports' else names)])}, {enc})")
-            labels.append((rule, "case", src, out))
+            labels.append((rule, "case", src, out, tree))
         txt.append(f"Eval vm_compute in (bad_idx ({checker}) {glist(cs)}).")
         blocks.append(labels)
     return "\n".join(txt) + "\n", blocks
@@ -689,12 +691,14 @@ def oracle_batch(impl, wd: Path, items, tag):
             for rule in rules:
                 out = impl.run(rule, src)
                 if isinstance(out, tuple):
-                    meta.append((k, None, {"rule": rule, "tree": tree, "src": src, "out": None, "crash": out[1]}))
+                    meta.append((k, None, {"rule": rule, "tree": tree, "src": src, "out": None, "crash": out[1],
+                                           "dir": str(d), "names": list(names)}))
                     continue
                 if out == src:
                     continue
                 cl.append({"id": len(meta), "before": src, "after": out, "names": list(names), "calls": True})
-                meta.append((k, len(cl) - 1, {"rule": rule, "tree": tree, "src": src, "out": out, "names": list(names)}))
+                meta.append((k, len(cl) - 1, {"rule": rule, "tree": tree, "src": src, "out": out, "names": list(names),
+                                              "dir": str(d)}))
         jobs.append({"dir": str(d), "modules": [], "pool": [], "clients": cl})
     os.chdir(common.VERIF)
     res = run_worker(jobs, base)
@@ -712,10 +716,526 @@ def oracle_batch(impl, wd: Path, items, tag):
             fails.append(dict(rec, diff=["<syntax>"]))
             continue
         diff = [n for n in r["diff"] if n.startswith("<") or n in still]
-        if "<exception>" not in diff and "<stdout>" in diff and not any(not n.startswith("<") for n in diff):
-            # stdout differs but every surviving name is identical: the print itself was rewritten
-            if not r["after"]["exc"]:
-                diff = [n for n in diff if n != "<stdout>"]
         if diff:
             fails.append(dict(rec, diff=diff, before=r["before"], after=r.get("after")))
     return fails, n_exec
+
+
+# ---------------------------------------------------------------------------------------------
+# known findings: site + structural predicate on a failing record {rule, tree, src, out, diff}
+
+SITE = {"fix_starred_imports": "tracing.fix_starred_imports", "fix_reimported_names": "tracing.fix_reimported_names",
+        "remove_unused_imports": "fixes.remove_unused_imports", "fix_duplicate_imports": "fixes.fix_duplicate_imports",
+        "sort_imports": "fixes.sort_imports", "move_imports_to_toplevel": "fixes.move_imports_to_toplevel",
+        "add_missing_imports": "fixes.add_missing_imports", "format_code": "main.format_code"}
+
+
+def _toplevel_binders(tree, src, n):
+    """top-level statements of the client that (re)bind n: explicit aliases, defs, assignments, and star
+    imports whose module exports n (reference semantics on the generated tree)"""
+    out = []
+    for i, node in enumerate(ast.parse(src).body):
+        if isinstance(node, ast.ImportFrom):
+            for al in node.names:
+                if al.name == "*":
+                    m = find_mod(tree, node.module or "")
+                    if m is not None and m.get("raw") is None and exported(m, n) and \
+                            isinstance(ref_resolve(tree, node.module, n), tuple):
+                        out.append(i)
+                elif (al.asname or al.name) == n:
+                    out.append(i)
+        elif isinstance(node, ast.Import):
+            if any((al.asname or al.name.split(".")[0]) == n for al in node.names):
+                out.append(i)
+        elif isinstance(node, (ast.FunctionDef, ast.ClassDef)) and node.name == n:
+            out.append(i)
+        elif isinstance(node, ast.Assign) and any(isinstance(t, ast.Name) and t.id == n for t in node.targets):
+            out.append(i)
+    return out
+
+
+def sig_same_name_rebound(c, n):
+    """the changed name n is bound by two or more top-level statements of the input"""
+    return n is not None and len(_toplevel_binders(c["tree"], c["src"], n)) >= 2
+
+
+def sig_dotted_import_head(c, n):
+    """the changed name n is the head of an un-aliased dotted import in a module of the tree"""
+    heads = {b[1].split(".")[0] for m in c["tree"]["mods"] if m.get("raw") is None for b in m["body"]
+             if b[0] == "import" and b[2] is None and "." in b[1]}
+    return n in heads
+
+
+def _nested_stores(src):
+    out = set()
+    for node in ast.walk(ast.parse(src)):
+        if isinstance(node, (ast.FunctionDef, ast.AsyncFunctionDef, ast.ClassDef, ast.Lambda)):
+            for sub in ast.walk(node):
+                if sub is not node and isinstance(sub, ast.Name) and isinstance(sub.ctx, ast.Store):
+                    out.add(sub.id)
+                if sub is not node and isinstance(sub, (ast.Import, ast.ImportFrom)):
+                    out.update(al.asname or al.name.split(".")[0] for al in sub.names)
+    return out
+
+
+def sig_nested_scope_binding(c, n):
+    """the changed name n is also assigned inside a function/class body of the client"""
+    return n in _nested_stores(c["src"])
+
+
+def sig_relative_import_chain(c, n):
+    """the client imports from a module of the tree that uses a relative import"""
+    rel = {m["name"] for m in c["tree"]["mods"] if m.get("raw") is not None and
+           any(isinstance(x, ast.ImportFrom) and x.level for x in ast.walk(ast.parse(m["raw"])))}
+    used = {x.module for x in ast.walk(ast.parse(c["src"])) if isinstance(x, ast.ImportFrom)}
+    return bool(rel & used)
+
+
+def sig_local_import_made_global(c, n):
+    """an import inside a function binds a name that the module also binds at top level"""
+    tree = ast.parse(c["src"])
+    top = set()
+    for node in tree.body:
+        if isinstance(node, ast.Assign):
+            top.update(t.id for t in node.targets if isinstance(t, ast.Name))
+        elif isinstance(node, (ast.FunctionDef, ast.ClassDef)):
+            top.add(node.name)
+    inner = {al.asname or al.name.split(".")[0] for f in ast.walk(tree) if isinstance(f, ast.FunctionDef)
+             for x in ast.walk(f) if isinstance(x, (ast.Import, ast.ImportFrom)) for al in x.names}
+    return bool(top & inner) and (n is None or n in top & inner)
+
+
+def sig_guess_preempts_star(c, n):
+    """the changed name n is provided by a star import and add_missing_imports has a guess for it"""
+    has_star = any(isinstance(x, ast.ImportFrom) and any(a.name == "*" for a in x.names)
+                   for x in ast.parse(c["src"]).body)
+    return has_star and n in GUESSABLE
+
+
+def sig_renamed_rebound_variable(c, n):
+    """a module-level variable of the client that an import rebinds afterwards was renamed by the pipeline
+    (its old name is no longer referenced in the output)"""
+    still = loaded_names(c["out"]) or set()
+    for node in ast.parse(c["src"]).body:
+        if isinstance(node, ast.Assign):
+            for t in node.targets:
+                if isinstance(t, ast.Name) and t.id not in still and len(_toplevel_binders(c["tree"], c["src"], t.id)) >= 2:
+                    return n is None or n == t.id
+    return False
+
+
+GUESSABLE: set = set()   # filled in check() from constants.ASSUMED_SOURCES / ASSUMED_PACKAGES / PACKAGE_ALIASES
+
+SIGS = {"same_name_rebound": sig_same_name_rebound, "dotted_import_head": sig_dotted_import_head,
+        "nested_scope_binding": sig_nested_scope_binding, "relative_import_chain": sig_relative_import_chain,
+        "local_import_made_global": sig_local_import_made_global, "guess_preempts_star": sig_guess_preempts_star,
+        "renamed_rebound_variable": sig_renamed_rebound_variable}
+IMPORT_SITES = set(SITE.values())
+
+
+def match_finding(findings, sites, case):
+    """Every changed name must be explained by a listed finding whose site is in `sites` and whose structural
+    predicate holds for that name (a record without changed names -- only output/exception differ -- needs one
+    finding whose predicate holds for the case as a whole).  Returns the list of findings used, or None."""
+    names = [n for n in case["diff"] if not n.startswith("<")] or [None]
+    used = []
+    for n in names:
+        hit = None
+        for f in findings:
+            if f.kind != "finding" or f.fields.get("site") not in sites:
+                continue
+            pred = SIGS.get(f.fields.get("sig", ""))
+            try:
+                if pred and pred(case, n):
+                    hit = f
+                    break
+            except Exception:  # a predicate that cannot be evaluated never suppresses
+                continue
+        if hit is None:
+            return None
+        used.append(hit)
+    return used
+
+
+# ---------------------------------------------------------------------------------------------
+# fixed end-to-end witnesses (deterministic sweep, part 3): a hand-written tree with the layouts the
+# generator does not produce (relative imports, nested scopes, guessed names) + dotted stdlib modules
+
+def special_tree():
+    return {"mods": [
+        mod("ma", [("assign", "x"), ("assign", "y"), ("assign", "Path"), ("assign", "_u")]),
+        mod("mb", [("assign", "x"), ("assign", "q")], all_=["q"], all_tuple=True),
+        {"name": "pkr.low", "init": False, "all": None, "body": [],
+         "raw": "__all__ = ['f', 'k']\ndef f():\n    pass\nk = ['@pkr.low:k']\nz = ['@pkr.low:z']\n"},
+        {"name": "pkr.mid", "init": False, "all": None, "body": [], "raw": "from .low import f\nh = ['@pkr.mid:h']\n"},
+        {"name": "pkr", "init": True, "all": None, "body": [], "raw": "from .low import *\nfrom .mid import h\n"},
+        mod("mc", [("import", "pkr.low", None), ("from", "ma", "x", "xx"), ("assign", "w")]),
+    ]}
+
+
+ALL_RULES = SWEEP_RULES
+SPECIALS = [
+    # (id, source, names, rules)
+    ("nested-scope", "from ma import *\ndef f():\n    x = 1\n    return x\nprint(x, y)\n", ["x", "y"], ALL_RULES),
+    ("relative-star", "from pkr import *\nprint(f, k, h)\n", ["f", "k", "h"], ALL_RULES),
+    ("relative-reimport", "from pkr.mid import f, h\nprint(f, h)\n", ["f", "h"], ALL_RULES),
+    ("local-import-global", "import ma\ndef f():\n    from ma import x\n    return x\nx = 3\nprint(f(), x)\n", ["x"], ALL_RULES),
+    ("guessed-name", "from ma import *\nprint(Path, x)\n", ["Path", "x"], ALL_RULES),
+    ("dotted-head", "from mc import *\nprint(pkr, xx, w)\n", ["pkr", "xx", "w"], ALL_RULES),
+    ("tuple-all", "from ma import *\nfrom mb import *\nprint(x, y, q)\n", ["x", "y", "q"], ALL_RULES),
+    ("private-star", "from mb import *\nfrom ma import _u\nfrom ma import *\nprint(_u, x)\n", ["_u", "x"], ALL_RULES),
+    ("star-after-explicit", "from mb import x\nfrom ma import *\nprint(x)\n", ["x"], ALL_RULES),
+    ("star-after-assign", "x = 1\nfrom ma import *\nprint(x)\n", ["x"], ALL_RULES),
+    ("os-open", "from os import *\nprint(open, getcwd)\n", ["open", "getcwd"], ALL_RULES),
+    ("os-path-star", "from os.path import *\nprint(join, basename)\n", ["join", "basename"], ALL_RULES),
+    ("import-os-path", "import os.path\nprint(os.getcwd())\n", ["os"], ALL_RULES),
+    ("dotted-unused", "import pkr.low\nprint(pkr.mid)\n", ["pkr"], ALL_RULES),
+    ("dotted-alias", "import xml.dom.minidom as md\nimport collections.abc as abc\nprint(md, abc)\n", ["md", "abc"], ALL_RULES),
+    ("from-abc", "from collections import abc\nfrom collections.abc import Mapping\nprint(abc, Mapping)\n", ["abc", "Mapping"], ALL_RULES),
+    ("attr-as-self", "import pkr.low as low\nprint(low)\n", ["low"], ALL_RULES),
+    ("same-bound-name", "import json as j\nimport pickle as j\nprint(j)\n", ["j"], ALL_RULES),
+    ("aba", "import ma as v\nimport mb as v\nimport ma as v\nprint(v)\n", ["v"], ALL_RULES),
+    ("import-twice-one-line", "import os, os\nprint(os)\n", ["os"], ALL_RULES),
+    ("sibling-functions", "def f():\n    import ma\n    return ma.x\ndef g():\n    import ma\n    return ma.y\nprint(f(), g())\n", [], ALL_RULES),
+    ("star-and-explicit", "from ma import y\nfrom ma import *\nprint(x, y)\n", ["x", "y"], ALL_RULES),
+    ("star-only-unused-rule", "from ma import *\nprint(x)\n", ["x"], ALL_RULES),
+    ("dup-from", "from ma import x\nfrom ma import y\nfrom ma import x as x\nprint(x, y)\n", ["x", "y"], ALL_RULES),
+    ("stacked", "import ma, mb, json\nprint(ma, mb, json)\n", ["ma", "mb", "json"], ALL_RULES),
+    ("function-import-stdlib", "def f():\n    import json\n    return json\nprint(f())\n", [], ALL_RULES),
+    ("function-import-local", "import ma\ndef f():\n    from ma import y\n    return y\nprint(f())\n", [], ALL_RULES),
+    ("missing-import", "print(os.getcwd(), x)\nfrom ma import x\n", ["x"], ALL_RULES),
+    ("levels", "from ma import x\nimport ma as m2\nfrom ma import y\nprint(x, y, m2)\n", ["x", "y", "m2"], ALL_RULES),
+]
+
+
+def stage_site(impl, d: Path, wd: Path, case):
+    """bisect a format_code failure: apply the import stages in pipeline order and return the site of the
+    first stage after which the oracle fails (or main.format_code)"""
+    impl.enter(d)
+    src = case["src"]
+    clients, cur = [], src
+    for st in STAGES:
+        nxt = impl.run(st, cur)
+        if isinstance(nxt, tuple):
+            break
+        clients.append({"id": len(clients), "before": src, "after": nxt, "names": case.get("names", []), "calls": True})
+        cur = nxt
+    os.chdir(common.VERIF)
+    res = run_worker([{"dir": str(d), "modules": [], "pool": [], "clients": clients}], wd / "trees")[0]["clients"]
+    for st, r in zip(STAGES, res):
+        still = loaded_names(r and clients[r["id"]]["after"]) or set()
+        diff = [n for n in r["diff"] if n.startswith("<") or n in still]
+        if "<exception>" in diff or any(not n.startswith("<") for n in diff):
+            return SITE[st]
+    return SITE["format_code"]
+
+
+# ---------------------------------------------------------------------------------------------
+# the check
+
+SWEEP_SEED = 1234          # the deterministic sweep never depends on VERIF_SEED
+
+
+def stmt_tree():
+    names = ["x", "y", "z", "w", "_u", "q"]
+    return {"mods": [mod(m, [("assign", n) for n in names]) for m in ("ma", "mb")] +
+            [mod("pk.s1", [("assign", n) for n in names]), mod("pk", [], init=True)]}
+
+
+def no_self_dups(stmts):
+    """_breakout_stacked_imports crashes (TypeError in the scheduler) when two aliases of one statement are
+    equal after `x as x` normalisation; a crash is not a C18 matter -- such lists are not generated"""
+    for s in stmts:
+        if s[0] == "import":
+            norm = [(n, a if a != n else None) for n, a in s[1]]
+            if len(set(norm)) != len(norm):
+                return False
+    return True
+
+
+def rules_for(body):
+    """format_code renames module-level variables/functions of the client (another property's kernel) and then
+    drops imports of the old name; whole-pipeline runs are therefore swept on import-only clients"""
+    if any(b[0] in ("def", "assign") for b in body):
+        return [r for r in SWEEP_RULES if r != "format_code"]
+    return SWEEP_RULES
+
+
+def sweep_items(tier):
+    items = []
+    pool = POOL + ["q", "ma", "mb", "mc", "pk"]
+    for t in small_scope_trees():
+        cl = []
+        for body in SMALL_CLIENTS:
+            if any(b[0] == "from" and not isinstance(ref_resolve(t, b[1], b[2]), tuple) for b in body):
+                continue
+            cm = {"mods": t["mods"] + [mod("client_mod", body)]}
+            used = sorted(namespace(cm, "client_mod", pool))
+            if used:
+                cl.append((sweep_source(body, used), used, rules_for(body)))
+        items.append((t, cl))
+    rnd = random.Random(SWEEP_SEED)
+    n_rand = 25 if tier == "quick" else 150
+    while n_rand:
+        t = random_tree(rnd)
+        if not t:
+            continue
+        n_rand -= 1
+        cl = []
+        for _ in range(8):
+            body = random_client(rnd, t)
+            if any(b[0] == "from" and not isinstance(ref_resolve(t, b[1], b[2]), tuple) for b in body):
+                continue
+            cm = {"mods": t["mods"] + [mod("client_mod", body)]}
+            used = sorted(namespace(cm, "client_mod", pool))
+            if used:
+                cl.append((sweep_source(body, used), used, rules_for(body)))
+        items.append((t, cl))
+    items.append((special_tree(), [(src, names, rules) for _, src, names, rules in SPECIALS]))
+    return items
+
+
+def triage(impl, wd, fails, kf):
+    """split oracle failures into (matched: {finding id: [records]}, unmatched: [records]).
+    A single-rule failure is matched only against findings of that rule's site.  A format_code failure is first
+    attributed by replaying the import stages one by one (stage_site); the pipeline schedules
+    fix_starred_imports and fix_reimported_names in ONE joint pass, so when several causes combine the
+    attribution is per changed name over the import-rule sites."""
+    matched, unmatched = {}, []
+    for f in fails:
+        site = SITE[f["rule"]]
+        sites = {site}
+        if f["rule"] == "format_code" and "<crash>" not in f["diff"]:
+            try:
+                site = stage_site(impl, Path(f["dir"]), wd, f)
+            except Exception as e:  # noqa
+                common.log("stage bisection failed:", e)
+            sites = {site}
+        f["site"] = site
+        m = match_finding(kf, sites, f) if "<crash>" not in f["diff"] else None
+        if m is None and f["rule"] == "format_code" and "<crash>" not in f["diff"]:
+            m = match_finding(kf, IMPORT_SITES, f)
+        if m is None:
+            unmatched.append(f)
+        else:
+            for fd in {x.id: x for x in m}.values():
+                matched.setdefault(fd.id, []).append(f)
+    return matched, unmatched
+
+
+def slim(f):
+    return {"rule": f["rule"], "site": f.get("site"), "modules": {m["name"]: render_module(m) for m in f["tree"]["mods"]},
+            "packages": [m["name"] for m in f["tree"]["mods"] if m["init"]],
+            "source": f["src"], "output": f["out"], "names_changed": f["diff"], "crash": f.get("crash"),
+            "before": f.get("before"), "after": f.get("after")}
+
+
+def check(run: common.Run):  # noqa: C901
+    wd = common.workdir(PID)
+    ps = common.proof_step(run, PID, wd)
+    impl = Impl(wd / "trees")
+    consts = impl.mods["constants"]
+    stdlib = set(consts.PYTHON_311_STDLIB)
+    GUESSABLE.clear()
+    GUESSABLE.update(consts.ASSUMED_PACKAGES | set(consts.PACKAGE_ALIASES) | set().union(*consts.ASSUMED_SOURCES.values()))
+    rnd = random.Random(run.seed)
+    hist = Counter()
+    files, blocks = [], []
+
+    # ---- 1. exhaustive small scope: every loading (ma variant x mb variant) x every small client
+    used0 = ["x", "y", "z", "w", "_u"]
+    small = [(t, SMALL_CLIENTS, [used0 + (["ma"] if any(b[0] == "from" and b[2] == "ma" for b in c) else [])
+                                for c in SMALL_CLIENTS]) for t in small_scope_trees()]
+    f1, b1, outs1, _ = run_tree_batch(impl, wd, small, "s", stdlib)
+    files += f1; blocks += b1
+    # ---- 2. seeded random trees (packages with __init__, chains up to depth 5, __all__ list/tuple)
+    batch = []
+    n_trees = 50 if run.tier == "quick" else 400
+    while len(batch) < n_trees:
+        t = random_tree(rnd)
+        if not t:
+            continue
+        clients = [random_client(rnd, t) for _ in range(8)]
+        useds = [sorted(set(rnd.sample(POOL + ["q"], rnd.randint(1, 4))) |
+                        {bound_name(b) for b in c if bound_name(b) and rnd.random() < 0.7}) for c in clients]
+        batch.append((t, clients, useds))
+    f2, b2, outs2, _ = run_tree_batch(impl, wd, batch, "r", stdlib)
+    files += f2; blocks += b2
+    n_tree_cases = sum(len(c) for _, c, _ in small + batch)
+    distinct = set()
+    for (t, clients, useds), outs in zip(small + batch, outs1 + outs2):
+        for rule, lst in outs.items():
+            for body, used, out in zip(clients, useds, lst):
+                src = client_source(body, used)
+                changed = isinstance(out, str) and out != src
+                hist[f"{rule}:{'rewritten' if changed else 'unchanged'}"] += 1
+                if changed:
+                    distinct.add((rule, json.dumps(t, sort_keys=True), src))
+    # ---- 3. statement rules: all lists of <= 2 (quick) / 3 (thorough) statements over 10 statements
+    lu = []
+    maxlen = 2 if run.tier == "quick" else 3
+    for l in small_stmt_lists(maxlen):
+        if no_self_dups(l):
+            lu += [(l, u) for u in useds_for(l)]
+    n_small_lists = len(lu)
+    n_rand = 250 if run.tier == "quick" else 3000
+    while n_rand:
+        l = random_stmts(rnd)
+        if no_self_dups(l):
+            lu.append((l, useds_for(l, rnd)[0])); n_rand -= 1
+    cs, labels = stmt_rule_cases(impl, lu, stdlib)
+    for lab in labels:
+        changed = lab[1] == "case" and lab[2] != lab[3]
+        hist[f"{lab[0]}:{'rewritten' if changed else 'unchanged'}"] += 1
+        if changed:
+            distinct.add((lab[0], lab[2]))
+    f3, b3 = stmt_case_files(wd, cs, labels, "a")
+    files += f3; blocks += b3
+
+    results = common.run_case_files(files)
+    disagreements = collect(results, files, blocks)
+    n_resolve = sum(len(bl) for fb in b1 + b2 for bl in fb[:1]) if False else \
+        sum(len(lbls) for fb in (b1 + b2) for lbls in fb if lbls and lbls[0][0] in ("resolve", "resolve-client", "module-error"))
+
+    # ---- 4. deterministic sweep with the property oracle (seed independent)
+    kf = common.load_findings(PID)
+    fails, n_exec = oracle_batch(impl, wd, sweep_items(run.tier), "o")
+    matched, unmatched = triage(impl, wd, fails, kf)
+    for f in kf:
+        if f.kind != "finding":
+            continue
+        hits = matched.get(f.id, [])
+        if hits:
+            h = hits[0]
+            run.known_finding(f.id, f"site={f.fields.get('site')} {f.text} [{len(hits)} sweep instances, e.g. "
+                                    f"{h['rule']} on {h['src']!r} -> {h['out']!r}: changed {h['diff']}]")
+        else:
+            common.log(f"note: known finding {f.id} no longer reproduces in the sweep")
+    for f in unmatched[:5]:
+        run.violation({"kind": "property-oracle", **slim(f),
+                       "explanation": "a referenced name resolves to a different object (or the module no longer "
+                                      "runs) after the rule, and no listed finding matches site + predicate"}, True)
+
+    # ---- 5. a broken correspondence / proof: failing-input search with the oracle
+    broken_proof = bool(ps.get("props")) and not ps["props"]["ok"]
+    if (disagreements or broken_proof) and not unmatched:
+        found = failing_input_search(impl, wd, disagreements, rnd, kf)
+        for f in found[:3]:
+            run.violation({"kind": "property-oracle", "found_by": "failing-input search", **slim(f),
+                           "explanation": "found while searching from a broken correspondence/proof"}, True)
+        if not found:
+            for d in disagreements[:5]:
+                run.violation({"kind": "correspondence", "kernel": "K11",
+                               "detail": [x if not isinstance(x, dict) else {m["name"]: render_module(m) for m in x["mods"]}
+                                          for x in d],
+                               "explanation": "Gallina model and implementation (or resolve and CPython) disagree; the "
+                                              "execution oracle found no client whose referenced names change"}, False)
+    if broken_proof:
+        pr = ps["props"]
+        run.violation({"kind": "proof", "file": pr["file"], "broken": pr.get("broken"), "log": pr["log"],
+                       "explanation": "a property theorem no longer checks"}, False)
+
+    sample_small = small[7]
+    run.coverage.update(
+        evaluations=n_tree_cases * 2 + n_resolve + len(cs) + n_exec,
+        distinct_nontrivial=len(distinct),
+        rule=("tree cases: ALL loading combinations of 4 variants of module ma x 11 variants of mb x 14 client import "
+              f"forms (exhaustive, {len(small)} trees), + {len(batch)} seeded random trees (modules ma mb pk/__init__ "
+              "pk.s1 pk.s2 mc, re-export chains, aliases, star imports, __all__ as list/tuple) x 8 random clients; for "
+              "each: resolve vs CPython namespaces, fix_starred_imports and fix_reimported_names vs model. statement "
+              f"rules: ALL lists of <= {maxlen} statements over 10 statement forms x 2-3 used-sets (exhaustive, "
+              f"{n_small_lists}) + random lists, x 6 rules. Non-trivial = the real rule changed the client; distinct by "
+              "(rule, tree, source)."),
+        samples=[{"modules": {m["name"]: render_module(m) for m in sample_small[0]["mods"]},
+                  "client": client_source(sample_small[1][1], sample_small[2][1]),
+                  "fix_starred_imports": outs1[7]["fix_starred_imports"][1]},
+                 {"modules": {m["name"]: render_module(m) for m in batch[0][0]["mods"]},
+                  "client": client_source(batch[0][1][0], batch[0][2][0]),
+                  "fix_reimported_names": outs2[0]["fix_reimported_names"][0]},
+                 {"statements": labels[40][2], "rule": labels[40][0], "output": labels[40][3]}],
+        exhaustive=False, exhaustive_small_trees=len(small), exhaustive_stmt_lists=n_small_lists,
+        histogram=dict(hist), resolve_vs_cpython=n_resolve,
+        correspondence_disagreements=len(disagreements),
+        sweep={"executed_before_after": n_exec, "failures": len(fails),
+               "matched_known_findings": {k: len(v) for k, v in matched.items()}, "unmatched": len(unmatched),
+               "seed_independent": True},
+        unmodelled=["importlib finder on the real sys.path (abstracted to the finite graph)", "relative imports",
+                    "conditional / try / function-level imports", "import side effects, partially initialised modules",
+                    "fixes.move_imports_to_toplevel, fixes._fix_imported_attr_as_self, fixes.fix_import_spacing",
+                    "fixes.add_missing_imports (guesses; sweep only: no previously bound name changes its object)",
+                    "__all__ built by += / append / extend", "submodule attributes set on packages as a side effect"],
+        trusted_base=common.TRUSTED_BASE_COMMON + [
+            "ImportsModel.resolve is a DEFINITION of what import binds (validated against CPython namespaces of the "
+            "generated trees on every run)",
+            "harness/c18.py: tree generator/renderer, id numbering (order preserving, odd = leading underscore), "
+            "client parser, harness/c18_worker.py (identity comparison inside one process)"])
+    run.assumptions += [
+        "module bodies are unconditional top-level statements; acyclic import graphs (the topo_ok guard)",
+        "absolute imports only in the model; relative imports appear only in the sweep (known finding)",
+        "add_missing_imports guesses are outside any model: the sweep only checks that no previously bound name "
+        "changes its object",
+        "objects are compared by identity within one process (client-created objects by module+qualname)"]
+
+
+def failing_input_search(impl, wd, disagreements, rnd, kf):
+    items = []
+    st = stmt_tree()
+    for d in disagreements[:60]:
+        if d[0] in SITE and len(d) >= 5 and d[1] == "case":
+            names = sorted(loaded_names(d[2]) or [])
+            items.append((d[4], [(d[2].replace("\n(", "\nprint(", 1) if False else d[2], names, [d[0], "format_code"])]))
+        elif len(d) == 4 and d[1] == "case":
+            names = sorted(loaded_names(d[2]) or [])
+            items.append((st, [(d[2], names, [d[0], "format_code"])]))
+    rules = sorted({d[0] for d in disagreements if d[0] in SITE or d[0].startswith("_")}) or SWEEP_RULES
+    pool = POOL + ["q", "ma", "mb", "mc", "pk"]
+    for _ in range(60):
+        t = random_tree(rnd)
+        if not t:
+            continue
+        cl = []
+        for _ in range(6):
+            body = random_client(rnd, t)
+            cm = {"mods": t["mods"] + [mod("client_mod", body)]}
+            used = sorted(namespace(cm, "client_mod", pool))
+            if used:
+                cl.append((client_source(body, used), used, [r for r in rules if r in SITE] or SWEEP_RULES))
+        items.append((t, cl))
+    for _ in range(150):
+        l = random_stmts(rnd)
+        if no_self_dups(l):
+            used = sorted({b for s in l for b in stmt_bound(s)} & set(POOL + ["q", "ma", "os"]))
+            items.append((st, [(stmts_source(l, used), used, rules)]))
+    fails, _ = oracle_batch(impl, wd, items, "f")
+    _, unmatched = triage(impl, wd, fails, kf)
+    return unmatched
+
+
+def replay(path: str) -> int:
+    data = json.loads(Path(path).read_text())
+    print(json.dumps({k: data[k] for k in data if k in ("kind", "explanation", "rule", "site", "source", "output",
+                                                        "names_changed", "modules", "detail", "broken")}, indent=1))
+    if data.get("kind") == "property-oracle" and data.get("modules"):
+        wd = common.workdir(PID + "-replay")
+        impl = Impl(wd / "trees")
+        d = wd / "trees" / "replay"
+        for name, text in data["modules"].items():
+            parts = name.split(".")
+            is_pkg = name in data.get("packages", []) or any(k.startswith(name + ".") for k in data["modules"])
+            p = d.joinpath(*parts, "__init__.py") if is_pkg else d.joinpath(*parts[:-1], parts[-1] + ".py")
+            p.parent.mkdir(parents=True, exist_ok=True)
+            p.write_text(text)
+        impl.enter(d)
+        out = impl.run(data["rule"], data["source"])
+        os.chdir(common.VERIF)
+        print("output now:", out)
+        if isinstance(out, str):
+            names = sorted(loaded_names(data["source"]) or [])
+            r = run_worker([{"dir": str(d), "modules": [], "pool": [], "clients": [
+                {"id": 0, "before": data["source"], "after": out, "names": names, "calls": True}]}], wd / "trees")
+            print("oracle now:", json.dumps(r[0]["clients"][0], indent=1))
+            return 1 if r[0]["clients"][0]["diff"] else 0
+    if data.get("kind") == "proof":
+        wdp = common.workdir(PID + "-replay")
+        print(common.check_props(PID, wdp)["log"])
+    return 0
